@@ -218,6 +218,20 @@ pub fn gen_scenario(r: &mut Rng, seed: u64) -> Scenario {
         let s2 = s.clone();
         pdesc.push(json!({"addr": addr(k), "kind": "seeder-going-silent-mid-download", "silent_after_blocks": s.silent_after_blocks}));
         peers.push(PeerSpec { addr: addr(k), id: peer_id(k), entry: Entry::Dialled { from_announce: 0 }, make: Box::new(move |nth| if nth > 1 { None } else { Some(seeder(s2.clone())) }), chunk: 0, pipe: 1 << 20 });
+        // ... while another, slow but live, seeder keeps completing pieces (in end game mode
+        // possibly the very piece requested from the silent one): none of that is traffic *from*
+        // the silent peer
+        if r.chance(1, 2) {
+            let k = nconn + 1;
+            let mut f = SeederCfg::honest(peer_id(k), vec![true; n]);
+            f.unchoke_after_ms = Some(0);
+            f.idle_close_ms = 10_000_000;
+            let lo = r.range(5_000, 60_000);
+            f.latency_ms = (lo, lo + r.range(1, 50_000));
+            let f2 = f.clone();
+            pdesc.push(json!({"addr": addr(k), "kind": "slow-live-seeder", "block_latency_ms": [f.latency_ms.0, f.latency_ms.1]}));
+            peers.push(PeerSpec { addr: addr(k), id: peer_id(k), entry: Entry::Dialled { from_announce: 0 }, make: Box::new(move |nth| if nth > 1 { None } else { Some(seeder(f2.clone())) }), chunk: 0, pipe: 1 << 20 });
+        }
     }
     let desc = json!({"seed": seed, "pieces": n, "horizon_ms": horizon, "connections": pdesc});
     Scenario { cfg: SimCfg { torrent, peers, tracker: vec![], failpoints: None, max_virtual_ms: horizon, stop_on_extract: false, linger_ms: 0, disk_on: disk_never, seed, pre: None, tracker_fn: None, driver: None }, desc, plans }
